@@ -1001,12 +1001,29 @@ def register(M):
             raise AbsRaise(ExcVal('AttributeError', ('isocalendar',)), node)
         return IsoCal(period_feature(interp, v, 'week', node))
 
+    def series_index_zone(interp, v, node):
+        # library fact (pandas 3.0.5): Series.tz_localize / tz_convert act on the *index* of the Series, not on its values (those go through
+        # .dt): "TypeError: index is not a valid DatetimeIndex or PeriodIndex" unless the Series is indexed by time
+        ix = getattr(v, 'index', None)
+        if not (isinstance(ix, Vec) and ix.dtype == 'M8'):
+            raise AbsRaise(ExcVal('TypeError', ('index is not a valid DatetimeIndex or PeriodIndex',)), node)
+        raise AnalysisError('time zone of the index of a Series not modelled', node)
+
     @meth(Vec, 'tz_localize')
     def _tzl(interp, v, args, kw, node):
-        return v.copy(tz=(args[0] if args else None))
+        if v.kind == 'series':
+            series_index_zone(interp, v, node)
+        if v.kind not in ('dtindex', 'index') or v.dtype != 'M8':
+            raise AnalysisError(f'tz_localize on {v.kind}/{v.dtype} not modelled', node)
+        tz = args[0] if args else kw.get('tz')
+        if tz is not None and v.tz is not None:
+            raise AbsRaise(ExcVal('TypeError', ('Already tz-aware, use tz_convert to convert.',)), node)
+        return v.copy(tz=tz)
 
     @meth(Vec, 'tz_convert')
     def _tzc(interp, v, args, kw, node):
+        if v.kind == 'series':
+            series_index_zone(interp, v, node)
         tz = args[0] if args else kw.get('tz')
         if v.tz is None:
             raise AbsRaise(ExcVal('TypeError', ('Cannot convert tz-naive timestamps, use tz_localize to localize',)), node)
